@@ -212,4 +212,11 @@ def rule_apply(ctx):
     r.floor(12)
 
 
-RULES = [rule_name_value, rule_single_path, rule_apply]
+def rule_qt_override(ctx):
+    """the Qt SIGNAL/SLOT override changes the values of eleven sp_ options while a macro is processed; the value applied
+    elsewhere is the configured one only if the override is saved once and restored completely (shared with C11)"""
+    from . import c11
+    c11.rule_qt_restore(ctx)
+
+
+RULES = [rule_name_value, rule_single_path, rule_apply, rule_qt_override]
